@@ -118,12 +118,19 @@ def run_case(case):
             else:
                 k = int(rng.integers(3, 10))
                 contacts = [[int(a), int(b)] for a, b in rng.integers(0, len(residues), (k, 2)) if a != b]
+                seen_, uniq = set(), []
+                for a, b in contacts:      # the square form has one entry per unordered pair: no duplicates, no (i,j)+(j,i)
+                    if frozenset((a, b)) not in seen_:
+                        seen_.add(frozenset((a, b)))
+                        uniq.append([a, b])
+                contacts = uniq
                 if not contacts:
                     contacts = [[0, len(residues) - 1]]
                 if scheme == "ca":
                     # pairs with a residue lacking CA are documented to be ignored; keep at least one that is not
                     with_ca = [i for i, h in enumerate(has_ca) if h]
-                    contacts.append([with_ca[0], with_ca[-1]])
+                    if frozenset((with_ca[0], with_ca[-1])) not in {frozenset(p) for p in contacts}:
+                        contacts.append([with_ca[0], with_ca[-1]])
             kw = dict(scheme=scheme, periodic=case["periodic"], ignore_nonprotein=case["ignore_nonprotein"])
             if case["soft"]:
                 kw.update(soft_min=True, soft_min_beta=case["soft"])
